@@ -373,6 +373,7 @@ structure Cfg where
   showOpen : List Nat
   showClose : List Nat
   look : LookCfg
+  pctUsesN : Bool      -- `%%` is read with "%%%n" and `pos += off` (commit 619a9b3); otherwise `pos += pctAdvance`
   pctAdvance : Nat
   scanConv : List Nat
   printConv : List Nat
@@ -441,7 +442,9 @@ def scanItem (c : Cfg) (i : Input) (pos : Nat) : Shape → Option Val × Res (In
     | none => (none, .ub)
     | some l => (none, .ok (i.adv (l.length - (matchLit t l).length), pos + t.length))
   | .pct =>
-    -- `format_from(input, pos, "%%")`: white space is skipped, EOF gives err = -1 → FormatError, a mismatch gives 0 (ignored)
+    -- `format_from(input, pos, "%%%n", &off)`: white space is skipped, end of input gives err = -1 → FormatError; when the next
+    -- byte is `%` it is consumed and `off` = everything consumed, otherwise the match fails (err = 0, ignored), `%n` is not
+    -- reached and `off` stays 0 — but a File has lost the white space.  Before 619a9b3: "%%" and a constant advance.
     match i.view pos with
     | none => (none, .ub)
     | some l =>
@@ -449,7 +452,9 @@ def scanItem (c : Cfg) (i : Input) (pos : Nat) : Shape → Option Val × Res (In
       | [] => (none, .raised .FormatError)
       | b :: r =>
         let rest := if b = 37 then r else b :: r
-        (none, .ok (i.adv (l.length - rest.length), pos + c.pctAdvance))
+        let consumed := l.length - rest.length
+        let adv := if c.pctUsesN then (if b = 37 then consumed else 0) else c.pctAdvance
+        (none, .ok (i.adv consumed, pos + adv))
 
 /-- the whole format: stops at the first exception; arguments not reached keep their initial value -/
 def scanItems (c : Cfg) (i : Input) (pos : Nat) : List Shape → List Val × Res (Input × Nat)
@@ -470,6 +475,7 @@ def srcCfg : Cfg where
   showClose := CelloGen.Text.showClose
   look := { opn := CelloGen.Text.lookOpen, cls := CelloGen.Text.lookClose, escb := CelloGen.Text.lookEscape,
             esc := CelloGen.Text.lookEsc, continues := CelloGen.Text.lookContinues }
+  pctUsesN := CelloGen.Text.scanPctUsesN
   pctAdvance := CelloGen.Text.scanPctAdvance
   scanConv := CelloGen.Text.scanConv
   printConv := CelloGen.Text.printConv
@@ -516,7 +522,7 @@ def Item.safe (k : Kind) (f : List Nat) : Item → Bool
   | .ld n => intSafe false n f
   | .lf _ => fltSafe f
   | .lit t => litSafe k t f
-  | .pct => false      -- known finding KF-C15-pct-advance: `%%` advances `pos` by 2 for one character
+  | .pct => true       -- the written `%` is matched and counted whatever follows
 
 /-- the sequence `its` followed by the unread text `z` is inside the property's quantifier -/
 def contractOK (c : Cfg) (k : Kind) : List Item → List Nat → Bool
